@@ -213,6 +213,7 @@ type evmSim struct {
 	watcher           *Watcher
 	holdGate          chan struct{} // non-nil while the consumer of hand-offs does not read
 	holdKick          chan struct{}
+	holdUsed          bool
 	headServedInPhase uint64
 	reobsPhase        bool
 	aborting          bool
@@ -802,7 +803,16 @@ func (h evmHarness) Exec(p *simkit.Program) *simkit.Result {
 			synctest.Wait() // the log line below must not race with the goroutines the step woke up
 			s.notePending()
 			s.mu.Lock()
-			s.log.Add("head=%d fin=%d inc=%d handoffs=%d seen=%d parked=%d polls=%d", s.head(), s.finalized, s.inc, len(s.handoffs), s.maxHeadServed, len(s.parked), s.reqs["blockByNumber"])
+			parked, handed := strconv.Itoa(len(s.parked)), strconv.Itoa(len(s.handoffs))
+			if s.holdUsed {
+				parked = "-"
+			}
+			if s.holdUsed || s.stallRecently() {
+				// a stalled receipt lookup parks the header loop in the middle of its walk over the
+				// pending set: which messages it got to before depends on Go's map order (rule D3)
+				handed = "-"
+			}
+			s.log.Add("head=%d fin=%d inc=%d handoffs=%s seen=%d parked=%s polls=%s", s.head(), s.finalized, s.inc, handed, s.maxHeadServed, parked, s.pollsForLog())
 			s.mu.Unlock()
 			s.log.Cut(fmt.Sprintf("%d %s t=%v", i, st, s.now()))
 		}
@@ -965,7 +975,15 @@ func (s *evmSim) runStep(st simkit.Step, obsvReqC chan *gossipv1.ObservationRequ
 	case "hold":
 		// the signing pipeline stops (A=1) / resumes (A=0) taking messages from the watcher
 		s.mu.Lock()
+		if st.A == 1 && s.holdGate == nil && len(s.watcher.pending) > 1 {
+			// with several messages due in one pass, Go's map order decides which one the watcher
+			// parks on: the scenario is only played with at most one pending message (rule D3)
+			s.mu.Unlock()
+			s.log.Add("hold skipped: %d messages pending", len(s.watcher.pending))
+			break
+		}
 		if st.A == 1 && s.holdGate == nil {
+			s.holdUsed = true
 			s.holdGate = make(chan struct{})
 			s.stats.Fault("consumer-busy")
 			s.mu.Unlock()
@@ -1120,6 +1138,25 @@ func (s *evmSim) notePending() {
 	}
 }
 
+// pollsForLog: the number of head polls is part of the canonical log, except in runs that used the
+// busy-consumer scenario: there a goroutine of the previous Run lives on next to the new ones, and
+// how their polls interleave at one instant is the Go scheduler's business (it changes no verdict).
+func (s *evmSim) pollsForLog() string {
+	if s.holdUsed {
+		return "-"
+	}
+	return strconv.Itoa(s.reqs["blockByNumber"])
+}
+
+func (s *evmSim) stallRecently() bool {
+	for _, f := range s.faults {
+		if f.code == 1 && f.kind == "receipt" && s.now() >= f.from && s.now() <= f.until+45*time.Second {
+			return true
+		}
+	}
+	return false
+}
+
 func (s *evmSim) raceReorg(tx *evmTx) {
 	s.mu.Lock()
 	if tx.block == nil || !s.canonical(tx.block) || tx.block.number <= s.finalized {
@@ -1208,7 +1245,7 @@ func (s *evmSim) settleRounds(tag string, jump int) bool {
 		s.mu.Unlock()
 		s.pump(s.now() + 3*poll + 500*time.Millisecond)
 		s.mu.Lock()
-		s.log.Add("settle %s round %d head=%d seen=%d polls=%d inc=%d", tag, r, s.head(), s.maxHeadServed, s.reqs["blockByNumber"], s.inc)
+		s.log.Add("settle %s round %d head=%d seen=%d polls=%s inc=%d", tag, r, s.head(), s.maxHeadServed, s.pollsForLog(), s.inc)
 		s.mu.Unlock()
 		s.log.Cut("settle")
 	}
